@@ -4286,3 +4286,46 @@ C03_BALANCED_HOLDOUT = dict(
     raises=[("fraction must be between 0 and 1", 5)],
 )
 ALL += [C03_BALANCED_HOLDOUT]
+# ---- C20: the reporting site cli/analyze_model_evaluation.main() (Model/CliAnalyze.v).  main() denotes the list of its effects on the
+# output directory, in order.  Trusted primitives, one call each: get_args() = the record of parsed arguments; ThetaHolder(n_thetas=1) only
+# reaches load_h5 / concat; the loads, correlation_matrix and the three metric methods = the components of the library record;
+# os.path.join(dir, "<literal>") for the six literal file names = the pair (dir, name); os.makedirs(d, exist_ok=True), the five plotting
+# calls and json.dump(d, f, indent=4) into open(path, "w") = one event each; the dict literal with exactly the three keys = the summary record.
+_AN_T = "(an_event Ev Co F)"
+_AN_NAMES = [("sample_prediction_correlation.pdf", "N_heat"), ("predicted_vs_observed_scatterplot.pdf", "N_scatter"),
+             ("predicted_vs_observed_by_sample_scatterplot.pdf", "N_scatter_sample"), ("per_sample_violin_plot.pdf", "N_violin"),
+             ("per_sample_violin_plot__99th_percentiles.pdf", "N_violin99"), ("summary_statistics.json", "N_summary")]
+CLI_ANALYZE = dict(
+    out="SrcCliAnalyze.v", imports="Model.Cli Model.CliAnalyze", pyparams=[], predefine={"written": "[]"}, implicit_return="{written}",
+    ignore=["log_config.configure_logging(args)", "logger.info(__a)"],
+    file="src/batchie/cli/analyze_model_evaluation.py", func="main", name="src_cli_analyze",
+    params=[("Scr", "Type"), ("Th", "Type"), ("Ev", "Type"), ("Co", "Type"), ("F", "Type"), ("L", "an_lib Scr Th Ev Co F"), ("argv", "an_args")],
+    returns="list " + _AN_T,
+    vars={"written": "list " + _AN_T, "args": "an_args", "theta_holder": "handle", "theta_holders": "list Th", "thetas": "Th", "screen": "Scr",
+          "me": "Ev", "corr": "Co", "summary_statistics": "(an_summary F)", "f": "an_file"},
+    fields=_arg_fields("an_args", "an", {"model_evaluation": "path", "screen": "path", "thetas": "list path", "output_dir": "path"}),
+    prims=[("get_args()", "argv", "an_args"),
+           _HOLDER_HANDLE,
+           ("Screen.load_h5(__p)", "!an_load_screen L {p}", "Scr", {"p": "path"}),
+           ("ModelEvaluation.load_h5(__p)", "!an_load_eval L {p}", "Ev", {"p": "path"}),
+           ("__h.load_h5(__p)", "!an_load_thetas L {p}", "Th", {"h": "handle", "p": "path"}),
+           ("__h.concat(__l)", "!an_concat_thetas L {l}", "Th", {"h": "handle", "l": "list Th"}),
+           ("correlation_matrix(__s, __t)", "!an_correlation_matrix L {s} {t}", "Co", {"s": "Scr", "t": "Th"}),
+           ("__e.mse()", "an_mse L {e}", "F", {"e": "Ev"}),
+           ("__e.mse_variance()", "an_mse_variance L {e}", "F", {"e": "Ev"}),
+           ("__e.inter_chain_mse_variance()", "an_inter_chain L {e}", "F", {"e": "Ev"}),
+           ("{'mse': __a, 'mse_variance': __b, 'inter_chain_mse_variance': __c}", "mk_an_summary {a} {b} {c}", "(an_summary F)",
+            {"a": "F", "b": "F", "c": "F"})]
+          + [("os.path.join(__d, %r)" % fn, "({d}, %s)" % nm, "an_file", {"d": "path"}) for fn, nm in _AN_NAMES],
+    contexts=[("open(__p, 'w')", "{p}", "an_file", {"p": "an_file"})],
+    typed_effects=[("os.makedirs(__d, exist_ok=True)", "written'", "{state} ++ [AnMkdir {d}]", {"d": "path"}),
+                   ("plotting.plot_correlation_heatmap(__c, __f)", "written'", "{state} ++ [AnHeat {c} {f}]", {"c": "Co", "f": "an_file"}),
+                   ("plotting.predicted_vs_observed_scatterplot(__e, __f)", "written'", "{state} ++ [AnScatter {e} {f}]", {"e": "Ev", "f": "an_file"}),
+                   ("plotting.predicted_vs_observed_scatterplot_per_sample(__e, __f)", "written'", "{state} ++ [AnScatterSample {e} {f}]",
+                    {"e": "Ev", "f": "an_file"}),
+                   ("plotting.per_sample_violin_plot(__e, __f)", "written'", "{state} ++ [AnViolin {e} {f} None]", {"e": "Ev", "f": "an_file"}),
+                   ("plotting.per_sample_violin_plot(__e, __f, percentile=__n)", "written'", "{state} ++ [AnViolin {e} {f} (Some {n})]",
+                    {"e": "Ev", "f": "an_file", "n": "Z"}),
+                   ("json.dump(__o, f, indent=4)", "written'", "{state} ++ [AnSummary {o} f']", {"o": "(an_summary F)"})],
+)
+ALL += [CLI_ANALYZE]
